@@ -112,6 +112,14 @@ def check_glue(ctx):
                            broken="coq/%s/props/%s.v: theorem %s no longer checks or is not closed" % (PROJ, PROPS, failing),
                            theorem=failing, closed_under_global_context=closed, theorems=len(names), axioms=axioms,
                            log=out[-3000:]), nofail=True, tag="glue")
+    if proofs_ok and ctx.tier == "thorough" and not os.environ.get("VERIF_NO_COQCHK"):
+        ck = fw.coqchk_props(PROJ, PROPS, timeout=6000)
+        ctx.oblige("glue: coqchk -silent -o %s (independent re-check of the compiled theorems and of every library they depend on)"
+                   % ck.get("library"), ck["ok"])
+        res["coqchk_axioms"] = ck["axioms"]
+        if not ck["ok"]:
+            res["ok"] = False
+            ctx.violation(dict(kind="coqchk-failed", broken="coqchk %s" % ck.get("library"), log=ck["log"]), nofail=True, tag="glue")
     return res
 
 
